@@ -24,3 +24,9 @@ chk('C14', 'exploration',
     'at every yield; order, fields, decoded descriptors, offsets, padded sizes, exact tiling of the extent and view equality are compared.',
     'Generator independent of elftools; type names expected from the table selected by e_type; x86/aarch64 property values 4 bytes.',
     'ground-truth generator oracle + stream-position poisoning at generator yields + conservation check over offsets', 'DESIGN.md section 4 C14')
+chk('C15', 'exploration',
+    'Ground-truth oracle: generated verdef/verneed/versym sections (dense, gapped with garbage, interleaved out of order; arbitrary '
+    'indices incl. hidden bit) in real images; entries, auxiliary chains, names, index resolution incl. misses, has_indexes and versym '
+    'pairing are compared under nested, outer-first (lazy auxiliary iterators consumed later) and partial consumption with stream poisoning.',
+    'Only forward displacements are encodable; indices unique among definitions and non-zero requirement auxiliaries.',
+    'ground-truth generator oracle + stream-position poisoning + lazy-iterator consumption patterns', 'DESIGN.md section 4 C15')
